@@ -26,5 +26,7 @@ def check(run):
     run.mc("MC_Net", consts={"MaxLen": 6 if t else 5, "Which": "host"}, invariants=["HostGrammar"], tag="MC_Net_host")
     run.mc("MC_Net", consts={"MaxLen": 7 if t else 6, "Which": "port"}, invariants=["PortGrammar"], tag="MC_Net_port")
     run.gen("Gen_C17")
+    # derived values follow the fields they are derived from: edits through exported fields after every query has been called once
+    run.gen("Gen_WarmEdit", consts={"Part": "raddr"}, tag="Gen_WarmEdit_raddr")
     run.replay_and_judge()
     return vlib.finish(run, "model_checking", RULE, ASSUME)
